@@ -177,6 +177,8 @@ def find_functions(m):
 
 BASELINE = {}
 LOOPS_SEEN = {}
+LOOP_LINES = {}         # "file::fn" -> [[ordinal, first line, last line or None], ...]
+STATIC_LOCALS = set()   # functions whose body declares an object with static storage duration
 
 
 def load_baseline():
@@ -260,6 +262,8 @@ def instrument_text(text, fname):
             found.append((mo, "".join(otext.split())))
         slugs = [sl for (_mo, sl) in found]
         LOOPS_SEEN["%s::%s" % (os.path.basename(fname), name)] = slugs
+        if re.search(r"\bstatic\b", body):
+            STATIC_LOCALS.add(name)
         ordinals = loop_ordinals(BASELINE.get("%s::%s" % (os.path.basename(fname), name)), slugs)
         for (mo, _sl), nloop in zip(found, ordinals):
             kw = mo.start()
@@ -267,6 +271,8 @@ def instrument_text(text, fname):
             q = match_forward(body, p, "(", ")")
             b = skip_ws(body, q + 1)
             tag = "%s_%d" % (name, nloop)
+            lrec = [nloop, text.count("\n", 0, lb + kw) + 1, None]     # [ordinal, first line, last line]
+            LOOP_LINES.setdefault("%s::%s" % (os.path.basename(fname), name), []).append(lrec)
             if b >= len(body) or body[b] != "{":
                 # unbraced loop body (not the repository's style, but a change may introduce one).  If the body is a plain
                 # expression statement it is wrapped in braces (semantically neutral) so that all four points exist;
@@ -284,11 +290,13 @@ def instrument_text(text, fname):
                     inserts.append((lb + b, 0, "{ VT_%s " % tag))
                     inserts.append((lb + k + 1, 0, " } VX_%s " % tag))
                     points += ["VP_" + tag, "VL_" + tag, "VT_" + tag, "VX_" + tag]
+                    lrec[2] = text.count("\n", 0, lb + k) + 1
                     continue
                 inserts.append((lb + q + 1, 0, " VL_%s " % tag))
                 points += ["VL_" + tag]
                 continue
             e = match_forward(body, b, "{", "}")
+            lrec[2] = text.count("\n", 0, lb + e) + 1
             inserts.append((lb + kw, 1, "VP_%s " % tag))
             inserts.append((lb + q + 1, 0, " VL_%s " % tag))
             inserts.append((lb + b + 1, 0, " VT_%s " % tag))
@@ -405,7 +413,7 @@ def main():
     with open(os.path.join(outdir, "verif_points.json"), "w") as fh:
         json.dump(allpoints, fh, indent=0)
     with open(os.path.join(outdir, "verif_loops.json"), "w") as fh:
-        json.dump(LOOPS_SEEN, fh, indent=0, sort_keys=True)
+        json.dump(dict(LOOPS_SEEN, __static_locals__=sorted(STATIC_LOCALS), __loop_lines__=LOOP_LINES), fh, indent=0, sort_keys=True)
     return 0
 
 
